@@ -994,6 +994,11 @@ func (t *tScreen) drawCell(x, y int) int {
 			// it was put in: it is not written to the terminal
 			continue
 		}
+		if !utf8.ValidRune(r) || (r >= 0xfdd0 && r <= 0xfdef) || r&0xfffe == 0xfffe {
+			// neither is a value that is no character at all (it
+			// would go out as U+FFFD, which takes a column)
+			continue
+		}
 		buf = t.encodeRune(r, buf)
 	}
 
